@@ -39,7 +39,9 @@ func newMqueue(q Qualifier, rule rule) (Rule, error) {
 		access = strings.Join(r[:size-1], " ")
 		name = r[size-1]
 		if slices.Contains(requirements[MQUEUE]["access"], name) {
-			access += " " + name
+			// No queue name given: the last word is an access too
+			access = strings.Join(r, " ")
+			name = ""
 		}
 	}
 	accesses, err := toAccess(MQUEUE, access)
